@@ -437,13 +437,13 @@ pub fn c08(tier: Tier) -> PropSpec {
         parts: vec![
             Part::new(
                 "accept",
-                tier.pick(4000, 80000),
+                tier.pick(30000, 300000),
                 || gen::adf_case(parser_adf(12, 12), LabelClass::Hostile),
                 c08_accept,
             ),
             Part::new(
                 "reject",
-                tier.pick(6000, 80000),
+                tier.pick(60000, 600000),
                 || {
                     (
                         gen::adf_case(parser_adf(6, 6), LabelClass::Hostile),
@@ -462,14 +462,14 @@ pub fn c08(tier: Tier) -> PropSpec {
             ),
             Part::new(
                 "tokens",
-                tier.pick(20000, 400000),
+                tier.pick(300000, 3000000),
                 || proptest::collection::vec(any::<u8>(), 1..14).boxed(),
                 c08_tokens,
             ),
             // the CLI clause: no answer for malformed text in any library mode
             Part::with_shrink(
                 "cli-reject",
-                tier.pick(60, 600),
+                tier.pick(150, 1500),
                 300,
                 || {
                     (
